@@ -221,7 +221,7 @@ func checkPremises(p *Program, fn *ssa.Function, in ssa.Instruction, ex e5Except
 	for _, req := range ex.requires {
 		switch {
 		case strings.HasPrefix(req, "guard:"):
-			if !strings.Contains(guards, strings.TrimPrefix(req, "guard:")) {
+			if !strings.Contains(guards, strings.TrimPrefix(req, "guard:")) && !guardViaHelper(fn, in, strings.TrimPrefix(req, "guard:")) {
 				return req + " (dominating guards now: " + guards + ")"
 			}
 		case strings.HasPrefix(req, "ssa:"):
@@ -495,7 +495,7 @@ func e5Check(h H, rule string, scope []*ssa.Function, exceptions map[string]e5Ex
 				r.Hold(rule, key, pos, how, renderGuards(fn, in)...)
 				return
 			}
-			if ex, ok := exceptions[key]; ok {
+			if ex, ok := lookupException(exceptions, key); ok {
 				if missing := checkPremises(h.p, fn, in, ex); missing == "" {
 					st.Exception++
 					r.Hold(rule, key, pos, "accepted by a proof-carrying exception whose premises still hold: "+ex.reason, ex.requires...)
@@ -511,4 +511,63 @@ func e5Check(h H, rule string, scope []*ssa.Function, exceptions map[string]e5Ex
 		})
 	}
 	return st
+}
+
+
+// lookupException: an exception is keyed by the source text of the site; a local that names a sub-expression makes
+// the canonical text differ by a pair of parentheses only — those do not matter.
+func lookupException(exceptions map[string]e5Exception, key string) (e5Exception, bool) {
+	if ex, ok := exceptions[key]; ok {
+		return ex, true
+	}
+	strip := func(s string) string { return strings.NewReplacer("(", "", ")", "").Replace(s) }
+	for k, ex := range exceptions {
+		if strip(k) == strip(key) {
+			return ex, true
+		}
+	}
+	return e5Exception{}, false
+}
+
+// guardViaHelper: the required guard does not dominate the site itself, but the site lies behind the nil-error edge
+// of a call to a module function every one of whose nil-error returns lies behind that guard (the test moved into a
+// helper that reports failure through its error result).
+func guardViaHelper(fn *ssa.Function, in ssa.Instruction, want string) bool {
+	for _, g := range guardAtoms(fn, nil, in) {
+		x, nilWhenTrue, ok := nilCmp(g.Cond)
+		if !ok || nilWhenTrue != g.Pos {
+			continue // not the "is nil" edge
+		}
+		ex, ok := x.(*ssa.Extract)
+		if !ok {
+			continue
+		}
+		c, ok := ex.Tuple.(*ssa.Call)
+		if !ok {
+			continue
+		}
+		hf := c.Call.StaticCallee()
+		if hf == nil || len(hf.Blocks) == 0 || fnPkg(hf) == nil || !isModPkg(fnPkg(hf).Path()) {
+			continue
+		}
+		okAll, n := true, 0
+		for _, rt := range realReturns(hf) {
+			res := retResults(rt)
+			if ex.Index >= len(res) {
+				okAll = false
+				continue
+			}
+			if cst, isC := res[ex.Index].(*ssa.Const); !isC || cst.Value != nil {
+				continue // an error return
+			}
+			n++
+			if !strings.Contains(strings.Join(renderGuards(hf, rt), " ; "), want) {
+				okAll = false
+			}
+		}
+		if okAll && n > 0 {
+			return true
+		}
+	}
+	return false
 }
